@@ -79,8 +79,10 @@ impl Exes {
         }
         let r = (|| {
             let text = program(k, ret);
-            let c = pipeline::front(&text).map_err(|e| format!("{e}"))?;
-            let (asm, n) = pipeline::codegen(c.linear, Arch::X86).map_err(|e| format!("{e}"))?;
+            // a main with at most five integer parameters is within the documented interface: a
+            // compiler failure here means the arguments do not reach the program
+            let c = pipeline::front(&text).map_err(|e| format!("compiler: {e}"))?;
+            let (asm, n) = pipeline::codegen(c.linear, Arch::X86).map_err(|e| format!("compiler: {e}"))?;
             self.tc.build_exe(&asm, n, &format!("c20_{k}_{}", ret.map(|r| r as i64).unwrap_or(-1))).map_err(|e| format!("{e:?}"))
         })();
         g.insert((k, ret), r.clone());
@@ -150,6 +152,13 @@ fn args_case(ex: &Exes, bytes: &[u8], bounds: &[i64]) -> CaseResult {
     let wrong = c.prob(40);
     let exe = match ex.prog_exe(k, ret) {
         Ok(e) => e,
+        Err(m) if m.starts_with("compiler: ") => {
+            return CaseResult::Fail(Failure {
+                kind: "compile".into(),
+                summary: format!("a main with {k} integer parameters does not compile for x86-64: {m}"),
+                details: json!({"source": program(k, ret)}),
+            });
+        }
         Err(m) => return CaseResult::Discard(format!("infra: {m}")),
     };
     let vals: Vec<i64> = (0..k).map(|_| value(&mut c, bounds)).collect();
